@@ -171,13 +171,21 @@ theorem hasNode_of_wfb {t : RawTree} (h : LevelLoop.wfb t = true) : HasNode t :=
   intro l0 h0
   exact LevelLoop.wfb_nodesAt_nonempty h (List.mem_of_mem_head? h0)
 
-/-- ... and the validator does not give it: the node-less taxonomy is accepted
-by `validate_taxonomy_tree`, satisfies `WF`, and is refused by `wfb` -/
+/-- ... the node-less taxonomy is refused by `wfb`; it WAS accepted by
+`validate_taxonomy_tree` until `fix:` 6649211 (this discrepancy was the
+finding), and is now refused by the validator as well (`.noNodes`), so that
+`HasNode` follows from acceptance: `hasNode_of_valid` below. -/
 theorem emptyTree_discrepancy :
-    WF emptyTree ∧ ¬ HasNode emptyTree ∧ LevelLoop.wfb emptyTree = false := by
-  refine ⟨⟨by rfl, by decide, by decide, dictOK_of_b (by decide)⟩, ?_, by decide⟩
+    emptyTree.validate = .error .noNodes ∧ ¬ HasNode emptyTree ∧
+      LevelLoop.wfb emptyTree = false := by
+  refine ⟨by rfl, ?_, by decide⟩
   intro h
   exact h 0 rfl rfl
+
+/-- since `fix:` 6649211 the validator gives `HasNode`
+(`RawTree.hasNode_of_validate`, CTM/Lemmas/TreeValidate.lean) -/
+theorem hasNode_of_valid {t : RawTree} (hv : t.validate = .ok ()) : HasNode t :=
+  RawTree.hasNode_of_validate hv
 
 /-- on a `WF` tree, one node anywhere in the hierarchy gives `HasNode` -/
 theorem hasNode_of_mem {t : RawTree} (w : WF t) {l : Level} (hl : l ∈ t.hierarchy) {n : Node}
@@ -227,7 +235,7 @@ theorem validate_of_wfb {t : RawTree} (h : LevelLoop.wfb t = true) (d : DictOK t
     intro pl cl hpc
     obtain ⟨pre, post, hs⟩ := split_of_mem_levelPairs hpc
     exact LevelLoop.facts_of_split h hs
-  apply validate_of_strict hnd hne
+  apply validate_of_strict hnd hne (hasNode_of_wfb h)
   refine ⟨hasH, keysSub, ?_, str, ?_, ?_, ?_, ?_, childNodup, rows⟩
   · -- every level of the hierarchy has its dict (it has a node)
     intro k hk
@@ -635,7 +643,7 @@ theorem mapPipeline_equiv {κ} {t₁ t₂ : RawTree} {vote : LevelLoop.Oracle κ
 theorem hasNode_fromRecords {cols : List Level} {recs : List (List Node)} (hc : cols.Nodup)
     (hne : cols ≠ []) (hr : RecsOK cols recs) (hn : Nested cols recs) (hrec : recs ≠ []) :
     HasNode (fromRecordsRaw cols recs) := by
-  have w := fromRecordsRaw_wf hc hne hr hn
+  have w := fromRecordsRaw_wf hc hne hr hn hrec
   obtain ⟨r0, rs0, rfl⟩ := List.exists_cons_of_ne_nil hrec
   have hpos : 0 < cols.length := List.length_pos_iff.2 hne
   have hlen : r0.length = cols.length := hr r0 (by simp)
@@ -819,13 +827,15 @@ theorem hasNode_of_rows {t : RawTree} (w : WF t) (h : t.allRows ≠ []) : HasNod
       have hn : e.1 ∈ t.nodesAt l := by simp [nodesAt, hlev]
       exact hasNode_of_mem w (List.mem_of_getLast? hl) hn
 
-/-- `hierarchy.Nodup` is not given by the validator either: a hierarchy that
-repeats a level name (a node that is its own child) is accepted by
-`validate_taxonomy_tree` — model and code — and refused by `wfb` -/
+/-- `hierarchy.Nodup` WAS not given by the validator either: a hierarchy that
+repeats a level name (a node that is its own child) was accepted by
+`validate_taxonomy_tree` — model and code — until `fix:` 799c7a6; it is now
+refused (`.dupLevel`; `RawTree.hierarchy_nodup_of_validate`), as it is by `wfb` -/
 def dupLevelTree : RawTree := { hierarchy := [0, 0], levels := [(0, [(10, [10])])] }
 
 theorem dupLevelTree_discrepancy :
-    dupLevelTree.validate = .ok () ∧ DictOK dupLevelTree ∧ ¬ dupLevelTree.hierarchy.Nodup ∧
+    dupLevelTree.validate = .error .dupLevel ∧ DictOK dupLevelTree ∧
+      ¬ dupLevelTree.hierarchy.Nodup ∧
       LevelLoop.wfb dupLevelTree = false :=
   ⟨by rfl, dictOK_of_b (by decide), by decide, by decide⟩
 
